@@ -66,7 +66,7 @@ theorem pipe_getline_looser_than_concat (a b : Expr) (rest : List Tok) (ha : wfA
   simp only [stripRes, strip, h.2]
 
 /-- The full statement of the property over the model's whole expression language (`wfFull`: every unary and binary
-    operator, `in`, `?:`, assignment to any lvalue, pre/post `++ --`, `$`, `a[i]`, and the getline forms `getline`,
+    operator, `in`, `?:`, assignment to any lvalue, pre/post `++ --`, `$`, `a[i]`, `@expr`, and the getline forms `getline`,
     `getline lv`, `getline < f`, `getline lv < f`, `cmd | getline [lv]` as operands): the minimally and the fully
     parenthesised spelling both parse back to the tree. -/
 theorem same_grouping_full (e : Expr) (pc : Bool) (rest : List Tok) (hwf : wfFull e = true) (hf : Follow pc rest) :
@@ -96,8 +96,9 @@ theorem same_grouping_partial (e : Expr) (hwf : wfA e = true) (pc : Bool) (rest 
 theorem gen_matches :
     Generated.C04Levels.levels = expectedLevels ∧ Generated.C04Levels.primaryCases = expectedPrimaryCases ∧
     Generated.C04Levels.printRedirectTokens = (redirectOrder.filter isRedirect).map tokName ∧
-    (∀ op : BOp, op.prec = C20.bopPrec op + 1) :=
-  ⟨gen_matches_levels, gen_matches_primary, gen_matches_redirect, table_matches_ast⟩
+    (∀ op : BOp, op.prec = C20.bopPrec op + 1) ∧
+    Generated.C04Levels.primaryCaseHeads = expectedPrimaryHeads :=
+  ⟨gen_matches_levels, gen_matches_primary, gen_matches_redirect, table_matches_ast, gen_matches_heads⟩
 
 /-! ### non-vacuity -/
 
@@ -125,6 +126,9 @@ example : wfFull (.binary (.cmp .gt) (.getline .none (.var 0) (.field (.num 1)))
 example : wfFull (.assign .set (.var 1) (.getline (.binary .concat (.str 2) (.str 3)) (.index 11 (.num 1)) .none)) = true := by decide
 example : parseExpr false [.getline, .name 0, .cmp .lt, .dollar, .num 1, .rbrace] =
     .ok (.getline .none (.var 0) (.field (.num 1)), [.rbrace]) := by rfl
+/-- `@ s1 s2 @ s3` (named fields on both sides of a concatenation) -/
+example : wfFull (.binary .concat (.binary .concat (.namedField (.str 1)) (.str 2)) (.namedField (.str 3))) = true := by decide
+example : parseExpr false [.str 1, .at, .str 2, .rbrace] = .ok (.binary .concat (.str 1) (.namedField (.str 2)), [.rbrace]) := by rfl
 example : isRedirect (.cmp .gt) = true ∧ isRedirect .pipe = true ∧ isRedirect .append = true := by decide
 /-- the theorems are not about an always-failing or always-same-answer parser: `1 - 2 - 3` groups to the left, `2 ^ 3 ^ 4` to the right -/
 example : parseExpr false [.num 1, .sub, .num 2, .sub, .num 3, .rbrace] =
